@@ -872,7 +872,11 @@ def r_src(ctx, col):
     rets = [n for n in cfg.nodes if n.kind == "stmt" and isinstance(n.ast, ast.Return)]
     all_ret = all(isinstance(r.ast.value, ast.Attribute) and norm_src(r.ast.value) == "self.f" for r in rets) \
         and not any(l == "fall" for _, l in cfg.pred[cfg.exit])
-    col.check(wraps and opens and all_ret and rets, "R-SRC", enter.qualname, enter.loc(),
+    # neither call found in __enter__ itself: they may live in a helper -- nothing can be said (a call that is there WITHOUT the
+    # encoding, or a path that does not return the handle, is a finding)
+    any_wrap = any(isinstance(n, ast.Call) and dotted(n.func) in ("TextIOWrapper", "io.TextIOWrapper") for n in own_nodes(enter))
+    any_open = any(isinstance(n, ast.Call) and dotted(n.func) == "open" for n in own_nodes(enter))
+    col.judge((any_wrap or any_open) and bool(rets), bool(wraps and opens and all_ret and rets), "R-SRC", enter.qualname, enter.loc(),
               "byte streams are decoded, paths opened with the encoding, handle returned on every path",
               "", f"wraps={wraps} opens={opens} returns-handle={all_ret}", stmt="enter")
 
